@@ -247,7 +247,7 @@ def ascii_table(
         if isinstance(value, (bytes, bytearray)):
             return (
                 "\001BLOBm"
-                + trunc_printable(value.decode("utf-8").ljust(width), width)
+                + trunc_printable(value.decode("utf-8", errors="replace").ljust(width), width)
                 + "\001OFFm"
             )
         if isinstance(value, dict):
